@@ -256,6 +256,7 @@ Definition raw_mark (ordered : bool) (i0 i1 : nat) : option sx :=
 
 Inductive lvl (ordered : bool) : option sx -> list rt -> list rt -> list rt -> Prop :=
 | lvl_intro ren r ch0 ch1 :
+    NoDup (keys ch0) -> NoDup (keys ch1) ->
     keys (filter (fun x => negb (new x)) r) = keys ch0 ->
     NoDup (keys r) ->
     (forall x, In x r -> Nat.odd (rid x) = new x) ->
@@ -450,7 +451,7 @@ Proof.
     - assert (c1' = c1) by (apply (NoDup_map_inj key ch1); auto; congruence). subst c1'.
       exists i0, i1. auto 10.
     - exfalso. apply Hno. rewrite K0, <- K1. now apply in_map. }
-  constructor.
+  constructor; [exact N0|exact N1|..].
   - (* t0's child list, in order *)
     rewrite filter_app, (filter_all_true _ r0), (filter_none _ ra), app_nil_r.
     + apply r0_keys.
@@ -496,4 +497,184 @@ Proof.
       destruct (cmp_cases ordered ch1 (0 + k) c0) as [[i1 [c1 [_ [_ [_ [_ [_ [_ [_ [_ [Ho Hs]]]]]]]]]]]|[_ [_ [_ [_ [Ho Hs]]]]]];
         congruence.
     + intros x Hx. unfold order_mark. now rewrite (RAnew x Hx).
+Qed.
+
+(* ------------------------------------------------------------------ *)
+(* re-classification steps preserve the master relation                *)
+(* ------------------------------------------------------------------ *)
+(* what one iteration of the loop can do to a node: nothing, MOVED_HERE on
+   a node copied from t1, or REMOVED -> MOVED_TO *)
+Definition step_ok (g : nat -> info -> info) : Prop := forall id inf,
+  g id inf = inf \/
+  (Nat.odd id = true /\ g id inf = set_dc MOVED_HERE inf) \/
+  (info_has_dc inf REMOVED = true /\ g id inf = set_dc MOVED_TO inf).
+
+Lemma get_set_other k k' v m : text_eqb k k' = false -> get_meta k' (set_meta k v m) = get_meta k' m.
+Proof.
+  intros Hk. induction m as [|[k2 v2] m IH]; cbn.
+  - now rewrite Hk.
+  - destruct (text_eqb k2 k) eqn:E; cbn.
+    + apply text_eqb_eq in E. subst k2. now rewrite Hk.
+    + now rewrite IH.
+Qed.
+
+Lemma map_info_pre g : forall x, pre (map_info g x) = map (map_info g) (pre x).
+Proof.
+  induction x as [id i ch IH] using rt_ind'. cbn [map_info pre map]. f_equal.
+  induction ch as [|c ch IHc]; [reflexivity|]. inversion IH as [|? ? Hc Hch]; subst.
+  cbn [map flat_map]. rewrite map_app, Hc, IHc; auto.
+Qed.
+
+Lemma map_info_pre_f g f : pre_f (map (map_info g) f) = map (map_info g) (pre_f f).
+Proof. induction f as [|c f IH]; [reflexivity|]. cbn [map flat_map]. now rewrite map_app, map_info_pre, IH. Qed.
+
+Lemma map_info_paths g : (forall id i, i_eqc (g id i) = i_eqc i) -> forall x, paths (map_info g x) = paths x.
+Proof.
+  intros Hg. induction x as [id i ch IH] using rt_ind'. cbn [map_info paths]. rewrite Hg. do 2 f_equal.
+  induction ch as [|c ch IHc]; [reflexivity|]. inversion IH as [|? ? Hc Hch]; subst. cbn. now rewrite Hc, IHc.
+Qed.
+
+Lemma step_ok_eqc g : step_ok g -> forall id i, i_eqc (g id i) = i_eqc i.
+Proof. intros H id i. destruct (H id i) as [-> |[[_ ->]|[_ ->]]]; reflexivity. Qed.
+Lemma step_ok_did g : step_ok g -> forall id i, i_did (g id i) = i_did i.
+Proof. intros H id i. destruct (H id i) as [-> |[[_ ->]|[_ ->]]]; reflexivity. Qed.
+
+Lemma map_info_rid g x : rid (map_info g x) = rid x. Proof. now destruct x. Qed.
+Lemma map_info_rch g x : rch (map_info g x) = map (map_info g) (rch x). Proof. now destruct x. Qed.
+Lemma map_info_rinfo g x : rinfo (map_info g x) = g (rid x) (rinfo x). Proof. now destruct x. Qed.
+
+Lemma removed_gone i : info_has_dc i REMOVED = true -> gone_i i = true.
+Proof. intros H. unfold gone_i. now rewrite H. Qed.
+
+Lemma step_node g x : step_ok g -> let x' := map_info g x in
+  rid x' = rid x /\ key x' = key x /\ rdid x' = rdid x /\ rch x' = map (map_info g) (rch x) /\
+  get_meta k_ren (rmeta x') = get_meta k_ren (rmeta x) /\
+  (Nat.odd (rid x) = new x -> new x' = new x /\
+     (new x = false -> gone x' = gone x /\ (gone x = false -> rinfo x' = rinfo x))) /\
+  (ok1 x -> ok1 x').
+Proof.
+  intros Hg x'. subst x'. unfold ok1. unfold key, rdid, rmeta, new, gone.
+  rewrite map_info_rid, map_info_rch, map_info_rinfo, (step_ok_eqc g Hg), (step_ok_did g Hg).
+  refine (conj eq_refl (conj eq_refl (conj eq_refl (conj eq_refl _)))).
+  destruct (Hg (rid x) (rinfo x)) as [E|[[Ho E]|[Hr E]]]; rewrite E; clear E.
+  - repeat split; auto; tauto.
+  - split; [unfold set_dc; cbn; apply get_set_other; reflexivity|]. split.
+    + intros Hn. rewrite Ho in Hn. rewrite <- Hn. split; [|discriminate].
+      unfold new_i. rewrite !info_has_dc_set_b. reflexivity.
+    + intros [_ G]. split; [exact Ho|]. unfold gone_i. rewrite !info_has_dc_set_b. reflexivity.
+  - split; [unfold set_dc; cbn; apply get_set_other; reflexivity|].
+    pose proof (removed_gone _ Hr) as G. pose proof (gone_new_excl _ G) as N. split.
+    + intros _. rewrite N. split.
+      * unfold new_i. rewrite !info_has_dc_set_b. reflexivity.
+      * intros _. rewrite G. split; [|discriminate]. unfold gone_i. rewrite !info_has_dc_set_b. reflexivity.
+    + intros [_ G']. congruence.
+Qed.
+
+Lemma filter_map_comm {X} (p : X -> bool) (F : X -> X) l :
+  (forall x, In x l -> p (F x) = p x) -> filter p (map F l) = map F (filter p l).
+Proof.
+  induction l as [|x l IH]; cbn; intros H; [reflexivity|]. rewrite H by now left.
+  destruct (p x); cbn; rewrite IH; auto; intros; apply H; now right.
+Qed.
+
+Lemma existsb_map_comp' {X Y} (p : Y -> bool) (F : X -> Y) l : existsb p (map F l) = existsb (fun x => p (F x)) l.
+Proof. induction l as [|x l IH]; cbn; [reflexivity|now rewrite IH]. Qed.
+Lemma existsb_ext_in' {X} (p q : X -> bool) l : (forall x, In x l -> p x = q x) -> existsb p l = existsb q l.
+Proof. induction l as [|x l IH]; cbn; intros H; [reflexivity|]. rewrite H by now left. f_equal. apply IH. intros; apply H; now right. Qed.
+
+Lemma map_ext_in' {X Y} (f g : X -> Y) l : (forall x, In x l -> f x = g x) -> map f l = map g l.
+Proof. apply map_ext_in. Qed.
+
+Lemma lvl_step ordered g : step_ok g -> forall ren r ch0 ch1,
+  lvl ordered ren r ch0 ch1 -> lvl ordered ren (map (map_info g) r) ch0 ch1.
+Proof.
+  intros Hg ren r ch0 ch1 H.
+  induction H as [ren r ch0 ch1 N0 N1 L1 L2 L3 L4 L5 L6 L7 L8 L9 IH L10].
+  assert (KN : forall x, In x r -> key (map_info g x) = key x /\ new (map_info g x) = new x).
+  { intros x Hx. destruct (step_node g x Hg) as [_ [K [_ [_ [_ [N _]]]]]]. split; [exact K|]. apply N. now apply L3. }
+  assert (Keys : keys (map (map_info g) r) = keys r).
+  { rewrite map_map. apply map_ext_in. intros x Hx. apply KN, Hx. }
+  constructor; [exact N0|exact N1|..].
+  - rewrite filter_map_comm.
+    + rewrite map_map. rewrite <- L1. apply map_ext_in. intros x Hx. apply filter_In in Hx. apply KN, Hx.
+    + intros x Hx. f_equal. apply KN, Hx.
+  - now rewrite Keys.
+  - intros x' Hx'. apply in_map_iff in Hx'. destruct Hx' as [x [<- Hx]].
+    rewrite map_info_rid. rewrite (proj2 (KN x Hx)). now apply L3.
+  - intros x' Hx' Hn'. apply in_map_iff in Hx'. destruct Hx' as [x [<- Hx]].
+    destruct (KN x Hx) as [K N]. rewrite N in Hn'. rewrite K.
+    destruct (L4 x Hx Hn') as [Hno [c1 [H1 [K1 [P O]]]]]. split; [exact Hno|]. exists c1.
+    refine (conj H1 (conj K1 (conj _ _))).
+    + rewrite map_info_paths; [exact P|apply step_ok_eqc, Hg].
+    + rewrite map_info_pre. apply Forall_forall. intros y' Hy'. apply in_map_iff in Hy'. destruct Hy' as [y [<- Hy]].
+      rewrite Forall_forall in O. apply (step_node g y Hg). apply O, Hy.
+  - intros x' Hx' Hn'. apply in_map_iff in Hx'. destruct Hx' as [x [<- Hx]].
+    destruct (KN x Hx) as [K N]. rewrite N in Hn'. rewrite K.
+    destruct (step_node g x Hg) as [_ [_ [_ [_ [_ [S _]]]]]]. destruct (S (L3 x Hx)) as [_ S']. destruct (S' Hn') as [G _].
+    rewrite G. now apply L5.
+  - intros c1 H1. rewrite Keys. now apply L6.
+  - intros x' Hx' G'. apply in_map_iff in Hx'. destruct Hx' as [x [<- Hx]].
+    rewrite map_info_rch.
+    destruct (step_node g x Hg) as [_ [_ [_ [_ [_ [S _]]]]]]. destruct (S (L3 x Hx)) as [N S'].
+    destruct (new x) eqn:Nx.
+    + exfalso. pose proof (gone_new_excl _ G') as Z. unfold new in N. congruence.
+    + destruct (S' eq_refl) as [G _]. rewrite G in G'. now rewrite (L7 x Hx G').
+  - intros x' i0 i1 c0 c1 Hx' Hn' Hi0 Hi1 K0 K1. apply in_map_iff in Hx'. destruct Hx' as [x [<- Hx]].
+    destruct (KN x Hx) as [K N]. rewrite N in Hn'. rewrite K in K0, K1.
+    rewrite <- (L8 x i0 i1 c0 c1 Hx Hn' Hi0 Hi1 K0 K1).
+    destruct (step_node g x Hg) as [_ [_ [_ [_ [_ [S _]]]]]]. destruct (S (L3 x Hx)) as [_ S']. destruct (S' Hn') as [G I].
+    assert (Gx : gone x = false).
+    { destruct (gone x) eqn:Gx; [|reflexivity]. exfalso. apply (proj1 (L5 x Hx Hn')); [exact Gx|].
+      rewrite <- K1. apply in_map. eapply nth_error_In; eauto. }
+    unfold mark, rmeta. now rewrite (I Gx).
+  - intros x' c0 c1 Hx' Hn' H0 H1 K0 K1. apply in_map_iff in Hx'. destruct Hx' as [x [<- Hx]].
+    destruct (KN x Hx) as [K N]. rewrite N in Hn'. rewrite K in K0, K1.
+    destruct (step_node g x Hg) as [_ [_ [_ [C [Rn _]]]]]. rewrite C, Rn. now apply (IH x c0 c1).
+  - rewrite L10. f_equal. rewrite existsb_map_comp'.
+    apply existsb_ext_in'. intros x Hx. symmetry.
+    destruct (KN x Hx) as [K N].
+    destruct (step_node g x Hg) as [_ [_ [_ [_ [_ [S _]]]]]]. destruct (S (L3 x Hx)) as [_ S'].
+    unfold order_mark. rewrite N. destruct (new x) eqn:Nx; [reflexivity|]. destruct (S' eq_refl) as [G I].
+    rewrite G. destruct (gone x) eqn:Gx; [reflexivity|]. unfold mark, rmeta. now rewrite (I eq_refl).
+Qed.
+
+Lemma reclass_fn_ok a d : Nat.odd a = true -> step_ok (reclass_fn a d).
+Proof.
+  intros Ha id inf. unfold reclass_fn.
+  destruct (Nat.eqb id a && did_eqb (i_did inf) d) eqn:E.
+  - right; left. apply andb_true_iff in E. destruct E as [E _]. apply Nat.eqb_eq in E. subst. auto.
+  - destruct (did_eqb (i_did inf) d && info_has_dc inf REMOVED) eqn:E2; [|now left].
+    right; right. apply andb_true_iff in E2. tauto.
+Qed.
+
+Lemma reclass_step_cases f a :
+  reclass_step f a = f \/ exists g, step_ok g /\ reclass_step f a = map (map_info g) f.
+Proof.
+  unfold reclass_step. destruct (Nat.odd a) eqn:Ha; [|now left].
+  destruct (find_node a f) as [n|]; [|now left].
+  match goal with |- context [if ?b then _ else _] => destruct b end; [|now left].
+  right. exists (reclass_fn a (rdid n)). split; [now apply reclass_fn_ok|reflexivity].
+Qed.
+
+Lemma reclass_preserves (P : forest -> Prop) :
+  (forall g f, step_ok g -> P f -> P (map (map_info g) f)) ->
+  forall order f, P f -> P (reclass order f).
+Proof.
+  intros HP order. unfold reclass. induction order as [|a order IH]; intros f Hf; [exact Hf|].
+  cbn [fold_left]. apply IH. destruct (reclass_step_cases f a) as [-> |[g [Hg ->]]]; auto.
+Qed.
+
+Lemma get_ren_root b : get_meta k_ren (root_meta b) = ren_of b.
+Proof. now destruct b. Qed.
+
+(* the master relation holds for the final (unreduced) result, for EVERY
+   iteration order of the re-classification *)
+Theorem diff_lvl order ordered t0 t1 : dom t0 t1 ->
+  let r := diff_with order ordered false t0 t1 in
+  lvl ordered (get_meta k_ren (fst r)) (snd r) t0 t1.
+Proof.
+  intros Hd. cbn. rewrite get_ren_root.
+  apply (reclass_preserves (fun f => lvl ordered _ f t0 t1)).
+  - intros g f Hg. now apply lvl_step.
+  - now apply compare_lvl.
 Qed.
